@@ -301,16 +301,17 @@ fn feed_fixed_block_size<T: Source, C: Fill>(
     let mut frame_count = 0usize;
     let mut worker_starvation_count = 0usize;
 
-    'feed: loop {
+    let result = 'feed: loop {
         let bufid = parbuf.recv_refill_request();
         {
             let mut numbuf = parbuf.buffers[bufid]
                 .lock()
                 .expect(panic_msg::MUTEX_LOCK_FAILED);
             let mut framebuf_and_ctx = (&mut numbuf.framebuf, &mut context);
-            let read_samples = src.read_samples(block_size, &mut framebuf_and_ctx)?;
-            if read_samples == 0 {
-                break 'feed;
+            match src.read_samples(block_size, &mut framebuf_and_ctx) {
+                Ok(0) => break 'feed Ok(()),
+                Ok(_) => {}
+                Err(e) => break 'feed Err(e),
             }
             numbuf.frame_number = Some(frame_count);
         }
@@ -318,8 +319,10 @@ fn feed_fixed_block_size<T: Source, C: Fill>(
         if parbuf.enqueue_encode(bufid) {
             worker_starvation_count += 1;
         }
-    }
+    };
+    // Workers wait for a stop request forever, so it is sent also when reading failed.
     parbuf.request_stop(workers);
+    result?;
     Ok((
         FeedStats {
             frame_count,
@@ -379,7 +382,7 @@ pub fn encode_with_fixed_block_size<T: Source>(
         src.channels(),
         block_size,
     )?);
-    let parsink: Arc<ParSink<Frame>> = Arc::new(ParSink::new());
+    let parsink: Arc<ParSink<Result<Frame, VerifyError>>> = Arc::new(ParSink::new());
 
     let join_handles: Vec<_> = (0..worker_count)
         .map(|_n| {
@@ -402,27 +405,53 @@ pub fn encode_with_fixed_block_size<T: Source>(
                             ),
                         )
                     };
-                    encode_result.map_or_else(
-                        |e| {
-                            unreachable!("{}, err={:?}", panic_msg::ERROR_NOT_EXPECTED, e);
-                        },
-                        |mut frame| {
-                            parbuf.enqueue_refill(bufid);
+                    // The buffer is handed back also when encoding failed (e.g. a sample
+                    // out of range); the error is reported by the calling thread.
+                    parbuf.enqueue_refill(bufid);
+                    match encode_result {
+                        Ok(mut frame) => {
                             frame.precompute_bitstream();
-                            parsink.push(frame_number, frame);
-                        },
-                    );
+                            parsink.push(frame_number, Ok(frame));
+                        }
+                        Err(EncodeError::Config(e)) => {
+                            parsink.push(frame_number, Err(e));
+                        }
+                        Err(e) => {
+                            unreachable!("{}, err={:?}", panic_msg::ERROR_NOT_EXPECTED, e);
+                        }
+                    }
                 }
             })
         })
         .collect();
 
     let src_len_hint = src.len_hint();
-    let context = ParContext::new(Context::new(src.bits_per_sample(), src.channels()));
-    let (feed_stats, context) =
-        feed_fixed_block_size(src, block_size, worker_count, &parbuf, context)?;
+    let mut context = ParContext::new(Context::new(src.bits_per_sample(), src.channels()));
+    let feed_result = feed_fixed_block_size(src, block_size, worker_count, &parbuf, &mut context)
+        .map(|(feed_stats, _)| feed_stats);
+
+    // All threads are stopped and joined before returning, also on errors.
     let remaining_md5_blocks = context.request_stop();
     let context = context.finalize();
+    for h in join_handles {
+        h.join().expect(panic_msg::THREAD_JOIN_FAILED);
+    }
+
+    // An error in a frame precedes a read error as in the single-thread mode;
+    // all the frames handed to the workers were read before the failing read.
+    let mut frame_error = None;
+    destruct_arc(parsink).finalize(|f: Result<Frame, VerifyError>| {
+        if frame_error.is_none() {
+            match f {
+                Ok(f) => stream.add_frame(f),
+                Err(e) => frame_error = Some(e),
+            }
+        }
+    });
+    if let Some(e) = frame_error {
+        return Err(e.into());
+    }
+    let feed_stats = feed_result?;
 
     info!(
         target: "flacenc::par_run_stat::jsonl",
@@ -436,12 +465,6 @@ pub fn encode_with_fixed_block_size<T: Source>(
     stream
         .stream_info_mut()
         .set_md5_digest(&context.md5_digest());
-
-    for h in join_handles {
-        h.join().expect(panic_msg::THREAD_JOIN_FAILED);
-    }
-
-    destruct_arc(parsink).finalize(|f: Frame| stream.add_frame(f));
 
     // `Stream::add_frame` lowers `min_block_size` when the last frame is short;
     // the minimum excludes the last block and must not be smaller than 16.
